@@ -316,10 +316,30 @@ class World(object):
         tr.extra["wid"] = wid
         return lambda: self.t.delete_webentity(arg, list(use))
 
+    def _op_create_many(self, op, tr):
+        """n creation requests in a row (ids cross thresholds such as 256 that a handful of
+        creations never reaches)."""
+        _, base, n = op
+        m = self.m
+        prefs = [base + b"p:%04d|" % i for i in range(n)]
+        if any(p in m.prefix for p in prefs):
+            raise Disabled()
+        for p in prefs:
+            m.named.add(p)
+
+        def call():
+            last = None
+            for p in prefs:
+                last = self.t.create_webentity([p])
+                m.adopt({k: list(v) for k, v in last.created_webentities.items()})
+            return True
+
+        return call
+
     def _op_addprefix(self, op, tr):
         _, p, idx = op
         m = self.m
-        wid = self._nth_id(idx)
+        wid = idx[1] if isinstance(idx, tuple) else self._nth_id(idx)  # ("id", n): caller-chosen id
         m.named.add(p)
         tr.expect_refusal = p in m.prefix
 
